@@ -25,6 +25,9 @@ type Problem struct {
 	// Node is the transfer function of one CFG node. With record set it is the final pass:
 	// the callback may note the (node, state) pair it is interested in.
 	Node func(n ast.Node, in State, record bool) State
+	// Multi, when set, replaces Node: a node may fork a vector into several (e.g. one per
+	// exit summary of a closure that the node calls).
+	Multi func(n ast.Node, in State, record bool) []State
 	// Edge refines a vector along the true/false edge of a condition; feasible=false drops it.
 	Edge func(cond ast.Expr, truth bool, in State) (out State, feasible bool)
 	// MaxStates bounds the number of vectors per block (default 4096); exceeding it sets Overflow.
@@ -92,32 +95,30 @@ func Solve(p *Problem) *Result {
 		work = work[1:]
 		queued[b] = false
 		for st := range in[b] {
-			s := st
-			for _, n := range b.Nodes {
-				s = p.Node(n, s, false)
-			}
-			for i, succ := range b.Succs {
-				o, ok := s, true
-				if p.Edge != nil && len(b.Succs) == 2 && len(b.Nodes) > 0 {
-					if cond, isExpr := b.Nodes[len(b.Nodes)-1].(ast.Expr); isExpr {
-						o, ok = p.Edge(cond, i == 0, s)
+			for _, s := range p.through(b.Nodes, st, false) {
+				for i, succ := range b.Succs {
+					o, ok := s, true
+					if p.Edge != nil && len(b.Succs) == 2 && len(b.Nodes) > 0 {
+						if cond, isExpr := b.Nodes[len(b.Nodes)-1].(ast.Expr); isExpr {
+							o, ok = p.Edge(cond, i == 0, s)
+						}
 					}
-				}
-				if !ok {
-					continue
-				}
-				if in[succ] == nil {
-					in[succ] = set{}
-				}
-				if _, have := in[succ][o]; !have {
-					if len(in[succ]) >= max {
-						res.Overflow = true
+					if !ok {
 						continue
 					}
-					in[succ][o] = struct{}{}
-					if !queued[succ] {
-						queued[succ] = true
-						work = append(work, succ)
+					if in[succ] == nil {
+						in[succ] = set{}
+					}
+					if _, have := in[succ][o]; !have {
+						if len(in[succ]) >= max {
+							res.Overflow = true
+							continue
+						}
+						in[succ][o] = struct{}{}
+						if !queued[succ] {
+							queued[succ] = true
+							work = append(work, succ)
+						}
 					}
 				}
 			}
@@ -136,32 +137,55 @@ func Solve(p *Problem) *Result {
 		}
 		sort.Slice(keys, func(i, j int) bool { return keys[i] < keys[j] })
 		for _, st := range keys {
-			s := st
-			for _, n := range b.Nodes {
-				s = p.Node(n, s, true)
-			}
-			if len(b.Succs) == 0 {
-				var ret *ast.ReturnStmt
-				pos := p.Body.Rbrace
-				noret := false
-				if len(b.Nodes) > 0 {
-					last := b.Nodes[len(b.Nodes)-1]
-					if r, ok := last.(*ast.ReturnStmt); ok {
-						ret = r
-						pos = r.Pos()
-					} else if es, ok := last.(*ast.ExprStmt); ok {
-						if call, ok := es.X.(*ast.CallExpr); ok && !mayRet(call) {
-							noret = true
+			for _, s := range p.through(b.Nodes, st, true) {
+				if len(b.Succs) == 0 {
+					var ret *ast.ReturnStmt
+					pos := p.Body.Rbrace
+					noret := false
+					if len(b.Nodes) > 0 {
+						last := b.Nodes[len(b.Nodes)-1]
+						if r, ok := last.(*ast.ReturnStmt); ok {
+							ret = r
+							pos = r.Pos()
+						} else if es, ok := last.(*ast.ExprStmt); ok {
+							if call, ok := es.X.(*ast.CallExpr); ok && !mayRet(call) {
+								noret = true
+							}
 						}
 					}
-				}
-				if !noret {
-					res.Exits = append(res.Exits, Exit{Ret: ret, Pos: pos, State: s})
+					if !noret {
+						res.Exits = append(res.Exits, Exit{Ret: ret, Pos: pos, State: s})
+					}
 				}
 			}
 		}
 	}
 	return res
+}
+
+// through pushes one vector through the nodes of a block.
+func (p *Problem) through(nodes []ast.Node, st State, record bool) []State {
+	cur := []State{st}
+	for _, n := range nodes {
+		if p.Multi == nil {
+			for i := range cur {
+				cur[i] = p.Node(n, cur[i], record)
+			}
+			continue
+		}
+		var next []State
+		seen := map[State]bool{}
+		for _, c := range cur {
+			for _, o := range p.Multi(n, c, record) {
+				if !seen[o] {
+					seen[o] = true
+					next = append(next, o)
+				}
+			}
+		}
+		cur = next
+	}
+	return cur
 }
 
 // Calls lists the call expressions inside a CFG node in evaluation order
